@@ -373,15 +373,25 @@ class State:
         keep_len: element writes through the place keep its length term."""
         if not keep_len:
             self.mark_dirty(place)
-        dead_terms = [t for t in self.iv if overlaps(term_place(t), place) and not (keep_len and t[0] == "len" and term_place(t) == place)]
-        for t in dead_terms:
+        def hit(pl):
+            # a fact about `pl` depends on what is stored at `place` iff pl is at/below it, or one of its index
+            # values is; writes *below* pl (elements of a container whose length is meant, …) do not affect it
+            if under(pl, place):
+                return True
+            for ip in ix_places(pl):
+                if under(ip, place):
+                    return True
+            return False
+
+        def keep(t):
+            return keep_len and t[0] == "len" and term_place(t) == place
+        for t in [t for t in self.iv if hit(term_place(t)) and not keep(t)]:
             del self.iv[t]
-        dead_rel = [k for k in self.rel if any(overlaps(term_place(t), place) and not (keep_len and t[0] == "len" and term_place(t) == place) for t in k)]
-        for k in dead_rel:
+        for k in [k for k in self.rel if any(hit(term_place(t)) and not keep(t) for t in k)]:
             del self.rel[k]
         dead = []
         for p, v in self.sym.items():
-            if overlaps(p, place):
+            if hit(p):
                 if keep_len and p == place:
                     continue
                 dead.append(p)
@@ -392,12 +402,12 @@ class State:
                     continue
                 if keep_len and q == place and v[0] == "n" and v[1] is not None and v[1][0] == "len":
                     continue
-                if overlaps(q, place):
+                if hit(q):
                     dead.append(p)
                     break
         for p in dead:
             if p in self.sym:
-                if not overlaps(p, place):
+                if not hit(p):
                     self.materialise(p)
                 del self.sym[p]
 
